@@ -43,7 +43,13 @@ class Logic:
         out = ins[alias] if alias is not None else Arr([0] * nplanes, name='out')
         if alias is None:
             out.p = [(0, sp.MASK, sp.MASK // 3)[junk] for _ in range(nplanes)]
+        before = [list(a.p) for a in ins]
         ret = it.run(self.func(fname), [out] + ins)
+        for j, a in enumerate(ins):
+            if a is not out and list(a.p) != before[j]:
+                from .tt import LaneViolation
+                raise LaneViolation(f'logic.{fname} modifies its operand {j} in place: the caller\'s array (a signal of the simulator state, '
+                                    f'possibly read again by another gate) is overwritten')
         res = planes_to_values(out.p, sp.nrows)
         self._cache[key] = (res, ret is out, it.steps)
         return self._cache[key]
